@@ -709,12 +709,33 @@ impl Rig {
                 }
                 verif::trace::emit(json!({"e": "Arrived", "label": label, "n": verif::sched::arrived(label), "want": n}));
             }
+            "set_plan" => {
+                // response plan for a request id ("" = requests that carry no x-verif-id: the agent's own calls)
+                let r = &st["resp"];
+                PLANS.lock().unwrap().insert(
+                    st["id"].as_str().unwrap_or("").to_string(),
+                    Plan {
+                        status: r["status"].as_u64().unwrap_or(200) as u16,
+                        headers: pairs_of(r.get("headers")),
+                        body: body_of(&r["body"]),
+                        framing: r["framing"].as_str().unwrap_or("cl").to_string(),
+                        frames: usizes_of(r.get("frames")),
+                        delay_ms: r["delay_ms"].as_u64().unwrap_or(0),
+                    },
+                );
+            }
             "own_call" => {
                 // the agent's own host calls, signed by the builder route (hyper_client::build_request)
                 let kind = st["kind"].as_str().unwrap_or("goalstate").to_string();
                 let kk = self.shared.get_key_keeper_shared_state();
                 verif::trace::emit(json!({"e": "OwnCall", "kind": kind, "tag": st["tag"]}));
-                let ok = self.rt.block_on(async {
+                let rt = self.rt.clone();
+                let url_arg = st["url"].as_str().map(|x| x.to_string());
+                let kind2 = kind.clone();
+                // a panic inside the client code must not take the driver thread down: it is data
+                let res = std::panic::catch_unwind(std::panic::AssertUnwindSafe(move || rt.block_on(async {
+                    let kind = kind2;
+                    let st = json!({"url": url_arg});
                     match kind.as_str() {
                         "goalstate" => crate::host_clients::wire_server_client::WireServerClient::new("168.63.129.16", 80, kk)
                             .get_goalstate()
@@ -729,8 +750,12 @@ impl Rig {
                             .await
                             .is_ok(),
                     }
-                });
-                verif::trace::emit(json!({"e": "OwnCallDone", "kind": kind, "tag": st["tag"], "ok": ok}));
+                })));
+                let (ok, panicked) = match res {
+                    Ok(v) => (v, false),
+                    Err(_) => (false, true),
+                };
+                verif::trace::emit(json!({"e": "OwnCallDone", "kind": kind, "tag": st["tag"], "ok": ok, "panicked": panicked}));
             }
             "sleep" => std::thread::sleep(Duration::from_millis(st["ms"].as_u64().unwrap_or(1))),
             "mark" => {
